@@ -673,7 +673,7 @@ class Overlap(Concurrent):
     asked exactly the mapped URLs, nobody else may be contacted.  (`$U`, `$D0`, `$D1` = ports known at run time.)"""
     name = "overlap"
     quick_n = 32
-    thorough_n = 900
+    thorough_n = 500
     parallel = False
 
     def setup(self):
